@@ -136,4 +136,172 @@ theorem c04_lin_step (s s' : CS) (t : Nat) (hi : WInv s) (h : s.adv t = some s')
              by_cases hc : (u < s.ths.length ∧ s.wakers.contains u = true) <;>
                simp only [hc, if_true, if_false, Th.pendingRes, and_self]))
 
+/-! ### From one step to every schedule -/
+
+/-- every segment of every call leaves every thread's call what it is -/
+theorem adv_op (s s' : CS) (t : Nat) (h : s.adv t = some s') (u : Nat) : (s'.thAt u).op = (s.thAt u).op := by
+  unfold CS.adv at h
+  cases hth : s.ths[t]? with
+  | none => simp [hth] at h
+  | some th =>
+    have w1 := wakeAll_getD s.ths s.wakers
+    have ht : t < s.ths.length := (thAt_eq s t th hth).2
+    simp only [hth] at h
+    obtain ⟨op, pc, observed, woken, res⟩ := th
+    simp only at h
+    split at h <;> (try (split at h)) <;> (try (split at h)) <;> simp only [Option.some.injEq, reduceCtorEq] at h <;> (try subst h)
+    all_goals (
+      by_cases hu : t = u
+      · subst hu
+        simp only [CS.thAt, List.getElem?_set, hth, if_true, Option.getD_some]
+        first
+          | rfl
+          | (simp only [ht, if_true, Option.getD_some]; done)
+          | (split <;> simp_all [wakeAll]; done)
+          | (simp_all [wakeAll]; done)
+      · first
+          | (simp only [CS.thAt, List.getElem?_set, hu, if_false]; done)
+          | (simp only [CS.thAt, List.getElem?_set, hu, if_false]
+             first
+               | rfl
+               | (split <;> rfl)
+               | (rw [w1 u]; split <;> simp)))
+
+/-- the abstract history of a schedule: the calls in the order of their linearization points, each with the thread
+    that makes it (a step that is not enabled is skipped — the thread is blocked) -/
+def CS.linHist (s : CS) : List Nat → List (Nat × ACall)
+  | [] => []
+  | t :: ts =>
+    match s.adv t with
+    | none => s.linHist ts
+    | some s' =>
+      match s.linOf t with
+      | some c => (t, c) :: s'.linHist ts
+      | none => s'.linHist ts
+
+/-- the specification run: the cell, what every subscriber has observed, and the results in order -/
+def AS.runCalls (a : AS) (obs : Nat → Nat) : List (Nat × ACall) → AS × (Nat → Nat) × List (Nat × CRes)
+  | [] => (a, obs, [])
+  | (t, c) :: l =>
+    let r := a.apply c (obs t)
+    let rest := AS.runCalls r.1 (fun u => if u = t then r.2.2 else obs u) l
+    (rest.1, rest.2.1, (t, r.2.1) :: rest.2.2)
+
+/-- the result of thread `u`'s last call in a list of results -/
+def lastRes (l : List (Nat × CRes)) (u : Nat) : Option CRes :=
+  ((l.filter fun p => p.1 = u).getLast?).map (·.2)
+
+theorem lastRes_cons (p : Nat × CRes) (l : List (Nat × CRes)) (u : Nat) :
+    lastRes (p :: l) u = match lastRes l u with
+      | some r => some r
+      | none => if p.1 = u then some p.2 else none := by
+  unfold lastRes
+  simp only [List.filter_cons]
+  by_cases hp : p.1 = u
+  · simp only [hp, decide_true, if_true]
+    cases hf : (l.filter fun p => decide (p.1 = u)) with
+    | nil => simp
+    | cons q qs =>
+      rw [List.getLast?_cons_cons]
+      cases hq : (q :: qs).getLast? with
+      | none => simp at hq
+      | some z => simp
+  · simp only [hp, decide_false, Bool.false_eq_true, if_false]
+    cases (List.filter (fun p => decide (p.1 = u)) l).getLast? <;> simp
+
+def CS.obsOf (s : CS) : Nat → Nat := fun u => (s.thAt u).observed
+
+/-- **Linearizability along every schedule.** From any state satisfying the invariant (every reachable one, `winv_run`)
+    and for every schedule of any number of threads: the specification, run on the calls in the order of their
+    linearization points, ends in the abstraction of the concrete final state and in exactly what every subscriber has
+    observed; and the result every call on the cell is about to return or has returned is the result the specification
+    gave that thread's last call (or the one it already had, if it passed no linearization point in this run). -/
+theorem c04_lin_run (s : CS) (hi : WInv s) (sched : List Nat) :
+    let f := s.run sched
+    let a := AS.runCalls s.abs s.obsOf (s.linHist sched)
+    a.1 = f.abs ∧ a.2.1 = f.obsOf ∧
+    ∀ u r, (s.thAt u).op.isCell = true → (f.thAt u).pendingRes = some r →
+      lastRes a.2.2 u = some r ∨ (lastRes a.2.2 u = none ∧ (s.thAt u).pendingRes = some r) := by
+  induction sched generalizing s with
+  | nil => simp [CS.run, CS.linHist, AS.runCalls, lastRes]
+  | cons t ts ih =>
+    have hrun : s.run (t :: ts) = ((s.adv t).getD s).run ts := by simp [CS.run]
+    cases h : s.adv t with
+    | none =>
+      simp only [hrun, h, Option.getD_none, CS.linHist]
+      exact ih s hi
+    | some s' =>
+      have hi' := winv_adv s s' t hi h
+      have step := c04_lin_step s s' t hi h
+      have hop := adv_op s s' t h
+      obtain ⟨ih1, ih2, ih3⟩ := ih s' hi'
+      simp only [hrun, h, Option.getD_some, CS.linHist]
+      cases hl : s.linOf t with
+      | none =>
+        simp only [hl] at step ⊢
+        obtain ⟨⟨sa, so, sr⟩, soth⟩ := step
+        have hobs : s.obsOf = s'.obsOf := by
+          funext u; simp only [CS.obsOf]
+          by_cases hu : u = t
+          · subst hu; exact so.symm
+          · exact ((soth u hu).2).symm
+        rw [← sa, hobs]
+        refine ⟨ih1, ih2, ?_⟩
+        intro u r hc hr
+        rcases ih3 u r (by rw [hop u]; exact hc) hr with h1 | ⟨h1, h2⟩
+        · exact Or.inl h1
+        · refine Or.inr ⟨h1, ?_⟩
+          by_cases hu : u = t
+          · subst hu
+            rcases sr hc with e | ⟨_, e⟩
+            · rw [← e]; exact h2
+            · rw [e] at h2; cases h2
+          · rw [← (soth u hu).1]; exact h2
+      | some c =>
+        simp only [hl] at step ⊢
+        obtain ⟨⟨sa, sr, so⟩, soth⟩ := step
+        have hobs : (fun u => if u = t then (s.abs.apply c (s.obsOf t)).2.2 else s.obsOf u) = s'.obsOf := by
+          funext u; simp only [CS.obsOf]
+          by_cases hu : u = t
+          · subst hu; simp only [if_true]; exact so.symm
+          · simp only [hu, if_false]; exact ((soth u hu).2).symm
+        simp only [AS.runCalls]
+        have e1 : (s.abs.apply c (s.obsOf t)).1 = s'.abs := sa.symm
+        rw [hobs, e1]
+        refine ⟨ih1, ih2, ?_⟩
+        intro u r hc hr
+        rw [lastRes_cons]
+        rcases ih3 u r (by rw [hop u]; exact hc) hr with h1 | ⟨h1, h2⟩
+        · left; simp only [h1]
+        · simp only [h1]
+          by_cases hu : u = t
+          · subst hu
+            left
+            simp only [if_true]
+            rw [sr] at h2
+            simpa [CS.obsOf] using h2
+          · right
+            have : ¬ t = u := fun e => hu e.symm
+            simp only [this, if_false, true_and]
+            rw [← (soth u hu).1]; exact h2
+
+/-- in particular, from the initial state of any program: the final cell and every call's result are those of the
+    specification run on the linearization order -/
+theorem c04_lin_init (v c n : Nat) (ops : List (COp × Bool)) (hc : 1 ≤ c)
+    (hh : (ops.filter fun p => p.1.needsClone).length ≤ c) (sched : List Nat) :
+    let s := CS.init true v c n ops
+    (AS.runCalls s.abs s.obsOf (s.linHist sched)).1 = (s.run sched).abs :=
+  (c04_lin_run _ (winv_init v c n ops hc hh) sched).1
+
+/-- non-vacuity: two writers and a subscriber; the specification run on the linearization order of a schedule that
+    interleaves them reproduces the concrete final cell (value 9 written last, version bumped twice) and the results:
+    the first writer replaced 5, the second 7, the subscriber sees 9 -/
+example :
+    let s := CS.init true 5 2 1 [(.set 7, false), (.set 9, false), (.poll, false)]
+    let sched := [0, 2, 0, 0, 1, 1, 2, 1, 2, 2, 2, 2]
+    (s.run sched).abs = { value := 9, version := 3 } ∧
+    (s.linHist sched) = [(0, .set 7), (1, .set 9), (2, .poll)] ∧
+    (AS.runCalls s.abs s.obsOf (s.linHist sched)).2.2 = [(0, .prev 5), (1, .prev 7), (2, .poll (.ready 9))] ∧
+    ((s.run sched).thAt 2).res = .poll (.ready 9) := by decide
+
 end EV
